@@ -270,6 +270,45 @@ impl Ord for Keyed<'_> {
     }
 }
 
+/// Derived enums whose variants mix `require_static` fields and pointer fields at the same positions.
+#[derive(Collect)]
+#[collect(no_drop)]
+pub enum Slotty<'gc> {
+    Label(#[collect(require_static)] String),
+    Ptr(Edge<'gc>),
+}
+#[derive(Collect)]
+#[collect(no_drop)]
+pub enum Linky<'gc> {
+    Named {
+        #[collect(require_static)]
+        name: u8,
+        next: Edge<'gc>,
+    },
+    Back {
+        prev: Edge<'gc>,
+        tag: u8,
+    },
+}
+
+/// A ring buffer whose contents wrap around the end of its storage (as any queue does once it has
+/// cycled past its capacity): four elements, the last two in the second of `as_slices()`.
+pub fn wrapped_deque<T: Clone>(fill: T) -> VecDeque<T> {
+    let mut d = VecDeque::with_capacity(4);
+    let cap = d.capacity();
+    for _ in 0..cap {
+        d.push_back(fill.clone());
+    }
+    for _ in 0..cap - 2 {
+        d.pop_front();
+    }
+    for _ in 0..2 {
+        d.push_back(fill.clone());
+    }
+    d
+}
+pub const DEQUE_SLOT: usize = 2;
+
 /// Edges in every element position of the std containers the crate provides `Collect` impls for.
 /// Mutated as a whole through `Gc<RefLock<_>>::borrow_mut` (one barrier on the object), so what
 /// this kind exercises is the *tracing* of each position.
@@ -294,11 +333,13 @@ pub struct BagBody<'gc> {
     pub hm: HashMap<u8, Edge<'gc>, FixedHasher>,       // 14
     pub opt: Option<Option<Edge<'gc>>>,                // 15: nested Option
     pub res: Result<u8, Edge<'gc>>,                    // 16: Err position
+    pub en: Slotty<'gc>,                               // 17: tuple variant next to a require_static one
+    pub ln: Linky<'gc>,                                // 18: struct variant, same position as a require_static field
     pub fp: FaultPoint,
     pub wt: (u8, WEdge<'gc>),                          // weak 1: last position of a tuple
     pub wo: Option<Box<WEdge<'gc>>>,                   // weak 2
 }
-pub const BAG_STRONG: usize = 17;
+pub const BAG_STRONG: usize = 19;
 pub const BAG_WEAK: usize = 3;
 
 /// A user trait object made collectable with `dyn_collect!`: whatever is traced through it goes
